@@ -6,8 +6,9 @@ established the code is left as it is (the recognisers then see an unknown shape
 
  consts   a Name that is not local to the function and has exactly ONE store in its module, a top-level assignment of a
           literal (constant, or tuple / list of constants), is replaced by the literal.
- inline   a call of a function defined at the top level of the same module, or `self.m(..)` of a method of the same
-          class (undecorated, not recursive, not in `keep`), is replaced by its body: parameters are bound by fresh
+ inline   a call of a function defined at the top level of the same module (or imported by `from <package>.. import f`
+          from another module of the same package: normalised in its own module first), or `self.m(..)` of a method of
+          the same class (undecorated, not recursive, not in `keep`), is replaced by its body: parameters are bound by fresh
           single-assignment locals (the alias pass then substitutes them), locals are renamed apart.  Accepted callee
           bodies: a procedure (no value returned; a bare `return` only as a guard clause or last statement), or
           statements followed by ONE `return <expr>` at the end.  A callee that is `return <expr>` only is inlined at
@@ -173,11 +174,13 @@ def params_of(fn: ast.FunctionDef) -> list:
 
 class Normaliser:
     def __init__(self, module: ast.Module, cls: ast.ClassDef | None = None, keep: set | None = None,
-                 inline: bool = True, mutators=()):
+                 inline: bool = True, mutators=(), repo=None, package: str = "pyxel"):
         self.module = module
         self.cls = cls
         self.keep = set(keep or ())       # call names (as unparsed: "self._set_steps", "calculate_steps") never inlined
         self.do_inline = inline
+        self.repo, self.package = repo, package    # repo: Path of the tree; lets calls of functions imported from other
+        self._foreign: dict = {}                    # modules of the same package be followed too
         self.mutators = set(mutators or ())   # method names known to rebind attributes of their receiver
         self.log: list[str] = []           # which rewrites were applied (evidence / debugging)
         self._mod_consts = None
@@ -276,6 +279,48 @@ class Normaliser:
             _Subst(m).visit(fn)
 
     # -- helper inlining
+    def _imported_function(self, name: str, depth: int = 0):
+        """A function of another module of the same package, imported by `from pyxel.x.y import name`: its definition,
+        normalised in the context of ITS module (its own helpers and constants), or None."""
+        if name in self._foreign:
+            return self._foreign[name]
+        self._foreign[name] = None
+        mod, modname, orig = self.module, None, name
+        for _ in range(3):                                    # follow re-exports through __init__ files
+            imp = [(n, a) for n in ast.walk(mod) if isinstance(n, ast.ImportFrom) and n.level == 0 and n.module
+                   and n.module.split(".")[0] == self.package for a in n.names if (a.asname or a.name) == orig]
+            if len({(n.module, a.name) for n, a in imp}) != 1:
+                return None
+            modname, orig = imp[0][0].module, imp[0][1].name
+            base = self.repo / modname.replace(".", "/")
+            path = base.with_suffix(".py") if base.with_suffix(".py").exists() else base / "__init__.py"
+            if not path.exists():
+                return None
+            try:
+                mod = ast.parse(path.read_text())
+            except SyntaxError:
+                return None
+            defs = [n for n in mod.body if isinstance(n, ast.FunctionDef) and n.name == orig]
+            if len(defs) == 1:
+                if defs[0].decorator_list:
+                    return None
+                sub = Normaliser(mod, None, self.keep, repo=self.repo, mutators=self.mutators)
+                out = sub.function(defs[0])
+                # what is left must not mention a name that means something else in the calling module
+                theirs = {n.name for n in mod.body if isinstance(n, (ast.FunctionDef, ast.ClassDef))} | \
+                    {t.id for st in mod.body if isinstance(st, (ast.Assign, ast.AnnAssign))
+                     for t in (st.targets if isinstance(st, ast.Assign) else [st.target]) if isinstance(t, ast.Name)}
+                free = {n.id for n in ast.walk(out) if isinstance(n, ast.Name) and isinstance(n.ctx, ast.Load)}
+                mine = {n.name for n in self.module.body if isinstance(n, (ast.FunctionDef, ast.ClassDef))} | \
+                    {t.id for st in self.module.body if isinstance(st, (ast.Assign, ast.AnnAssign))
+                     for t in (st.targets if isinstance(st, ast.Assign) else [st.target]) if isinstance(t, ast.Name)}
+                if free & theirs & mine:
+                    return None
+                self.log += [f"foreign:{modname}.{orig}"] + [f"  {x}" for x in sub.log]
+                self._foreign[name] = out
+                return out
+        return None
+
     def _resolve(self, call: ast.Call):
         f = call.func
         name = ast.unparse(f)
@@ -285,6 +330,10 @@ class Normaliser:
         if isinstance(f, ast.Name):
             cands = [n for n in self.module.body if isinstance(n, ast.FunctionDef) and n.name == f.id]
             is_method = False
+            if not cands and self.repo is not None:
+                foreign = self._imported_function(f.id)
+                if foreign is not None:
+                    cands = [foreign]
         elif (isinstance(f, ast.Attribute) and isinstance(f.value, ast.Name) and f.value.id == "self"
               and self.cls is not None):
             cands = [n for n in self.cls.body if isinstance(n, ast.FunctionDef) and n.name == f.attr]
@@ -829,8 +878,9 @@ class Abbreviate(ast.NodeTransformer):
         return n
 
 
-def normalise(module: ast.Module, fn: ast.FunctionDef, cls: ast.ClassDef | None = None, keep=(), abbreviate=None):
-    nz = Normaliser(module, cls, set(keep))
+def normalise(module: ast.Module, fn: ast.FunctionDef, cls: ast.ClassDef | None = None, keep=(), abbreviate=None,
+              repo=None, mutators=()):
+    nz = Normaliser(module, cls, set(keep), repo=repo, mutators=mutators)
     out = nz.function(fn)
     if abbreviate:
         out = Abbreviate(abbreviate).visit(out)
